@@ -768,3 +768,23 @@ pub fn stress_value(seed: u64, t: usize, sm: &mut SplitMix) -> (usize, i128) {
         _ => (3, day * US_PER_DAY + sec * US_PER_SEC),
     }
 }
+
+/// the provided methods of `Ord` (max, min, clamp - a type may override them) and sorting must
+/// follow the same order as `cmp`; `want` is the reference order of x relative to y
+pub fn ord_provided_ok<T: Ord + Copy>(x: T, y: T, want: std::cmp::Ordering) -> bool {
+    let (lo, hi) = if want == std::cmp::Ordering::Greater { (y, x) } else { (x, y) };
+    let mut v = [y, x, hi, lo];
+    v.sort();
+    let sorted_ok = v[0] == lo && v[3] == hi && (v[1] == lo || want == std::cmp::Ordering::Equal) && (v[2] == hi || want == std::cmp::Ordering::Equal);
+    x.max(y) == hi
+        && y.max(x) == hi
+        && x.min(y) == lo
+        && y.min(x) == lo
+        && std::cmp::max(x, y) == hi
+        && std::cmp::min(x, y) == lo
+        && x.clamp(lo, hi) == x
+        && y.clamp(lo, hi) == y
+        && lo.clamp(hi, hi) == hi
+        && hi.clamp(lo, lo) == lo
+        && sorted_ok
+}
